@@ -20,6 +20,9 @@ func genC07(r *Rnd, t Tier) *Case {
 	unit := pick(r, time.Millisecond, time.Millisecond, time.Microsecond, time.Second)
 	sc := &Scenario{Family: "c07"}
 	L := time.Duration(r.Range(2, 30)) * unit
+	if r.P(0.04) {
+		L = time.Duration(r.Intn(2)) // a limit of zero or one nanosecond: exceeded at once unless the function returns at once
+	}
 	sc.Policies = []PolicySpec{{Kind: KTimeout, Limit: L}}
 	kinds := []string{KTimeout}
 	max := 3
